@@ -544,9 +544,21 @@ def check(run):
     os.makedirs(work, exist_ok=True)
     nvar = 0
     stats = run.cov["engines"].setdefault("flat-e2e", {})
-    for k in range(nsc):
-        seed = run.rng.randrange(1 << 30)
-        fmt = ("diskdump", "sadump", "diskdump", "elf", "sadump")[k % 5]
+    # pinned scenarios (corpus/flat-e2e.txt: "<format> <scenario seed>   # why"), run first on every check
+    pinned = []
+    cp = os.path.join(core.VERIF, "corpus", "flat-e2e.txt")
+    if os.path.exists(cp):
+        for l in open(cp):
+            f = l.split("#")[0].split()
+            if len(f) == 2:
+                pinned.append((f[0], int(f[1])))
+    stats["pinned_scenarios"] = len(pinned)
+    for k in range(-len(pinned), nsc):
+        if k < 0:
+            fmt, seed = pinned[k + len(pinned)]
+        else:
+            seed = run.rng.randrange(1 << 30)
+            fmt = ("diskdump", "sadump", "diskdump", "elf", "sadump")[k % 5]
         try:
             sc = Scenario(seed, work, fmt)
         except (RuntimeError, OSError, subprocess.SubprocessError) as e:
@@ -560,7 +572,7 @@ def check(run):
             run.count("e2e-variant-" + name.split("-")[0].rstrip("0123456789")
                       + ("-%dfiles" % len(paths) if len(paths) > 1 else ""))
             run.note_case("e2e %d %s" % (seed, name), name != "plain")
-        if k == 0:
+        if k == 0 or k == -len(pinned):
             run.sample({"e2e_scenario": seed, "format": sc.fmt,
                         "variants": [v[0] for v in sc.variants][:8], "plain_dump": impl[0][:300]})
         seen = set()
